@@ -4,7 +4,7 @@
 const char *grammar_fault_name(int k)
 {
         static const char *n[] = { "none", "len_nlen", "btype3", "hlit_range", "hdist_range", "oversub_cl", "oversub_ll", "oversub_d", "repeat_first",
-                                   "repeat_overflow", "no_eob", "unassigned", "len_sym_286", "dist_sym_30", "dist_too_far" };
+                                   "repeat_overflow", "no_eob", "unassigned", "len_sym_286", "dist_sym_30", "dist_too_far", "unassigned_dist" };
         return k >= 0 && k < GF_NKINDS ? n[k] : "?";
 }
 
@@ -231,6 +231,8 @@ DefGenOut gen_deflate_stream(const Json &spec)
                         ntok = 0; // empty block
                 int type = (int) r.below(3);
                 bool inject = (bi == fault_block) && !done_fault;
+                if (inject && fault == GF_UNASSIGNED_DIST)
+                        ntok = 0; // the faulty block carries only the one bad match, so its distance code can be shaped freely
                 if (inject) {
                         switch (fault) {
                         case GF_LEN_NLEN: type = 0; break;
@@ -312,6 +314,10 @@ DefGenOut gen_deflate_stream(const Json &spec)
                                         lf[toks[k].lit]++;
                         }
                         lf[256]++;
+                        int ud_len = 0;
+                        (void) ud_len;
+                        if (inject && fault == GF_UNASSIGNED_DIST)
+                                lf[257 + r.below(29)]++;
                         // extra unused symbols that nevertheless get codes
                         int extra = (int) r.below(4) == 0 ? (int) r.below(20) : 0;
                         for (int e = 0; e < extra; e++)
@@ -369,6 +375,19 @@ DefGenOut gen_deflate_stream(const Json &spec)
                         }
                         if (inject && fault == GF_NO_EOB)
                                 l2[256] = 0;
+                        if (inject && fault == GF_UNASSIGNED_DIST) {
+                                // lengths 1,2,...,L-1,L on L symbols: Kraft sum 1 - 2^-L, the all-ones code word of length L is unassigned
+                                ud_len = (int) r.range(2, 15);
+                                std::vector<int> syms;
+                                for (int q = 0; q < 30; q++)
+                                        syms.push_back(q);
+                                for (size_t q = syms.size(); q > 1; q--)
+                                        std::swap(syms[q - 1], syms[r.below(q)]);
+                                for (auto &x : d2)
+                                        x = 0;
+                                for (int q = 0; q < ud_len; q++)
+                                        d2[syms[q]] = (uint8_t) (q + 1);
+                        }
                         for (size_t s = 0; s < 286; s++)
                                 ll[s] = l2[s];
                         for (size_t s = 0; s < 30; s++)
@@ -515,6 +534,21 @@ DefGenOut gen_deflate_stream(const Json &spec)
                         if (k == inject_at && !done_fault) {
                                 if (fault == GF_UNASSIGNED) {
                                         o.fault_bit = w.n;
+                                        for (int q = 0; q < 15; q++)
+                                                w.put(1, 1);
+                                        o.fault_end_bit = w.n;
+                                        for (int q = 0; q < 64; q++)
+                                                w.put(1, 1);
+                                        done_fault = true;
+                                        break;
+                                }
+                                if (fault == GF_UNASSIGNED_DIST) {
+                                        int ls = 257;
+                                        while (ls < 286 && !ll[ls])
+                                                ls++;
+                                        o.fault_bit = w.n;
+                                        w.code(lc[ls], ll[ls]);
+                                        w.put(0, len_extra[ls - 257]);
                                         for (int q = 0; q < 15; q++)
                                                 w.put(1, 1);
                                         o.fault_end_bit = w.n;
